@@ -8,7 +8,7 @@
   offset changes nothing.
 -/
 import LiteFSVerif.Proofs.Image
-import LiteFSVerif.Model.Engine
+import LiteFSVerif.Proofs.Engine
 
 set_option linter.unusedSimpArgs false
 
@@ -30,10 +30,17 @@ theorem C03_write_needs_lock (s : Eng) (offset : Nat) (data : ByteArray)
     (hl : (s.locks.state .write == .exclusive) = false) (hhdr : offset = 0 → data.size = 32) :
     writeWALAt s offset data = .error (s, .err) := by
   unfold writeWALAt
-  simp only [hw, Bool.not_true, Bool.false_eq_true, if_false, hd, hps, bind, Except.bind, pure, Except.pure, hl]
+  rw [ensure_pos (by simp [hw])]
+  simp only [M_ok_bind, hd, if_false]
+  rw [ensure_pos (by simpa using hps)]
+  simp only [M_ok_bind]
   by_cases h0 : offset = 0
-  · simp [h0, hhdr h0, fail]
-  · simp [h0, fail]
+  · simp only [h0, if_true]
+    rw [ensure_pos (by simp [hhdr h0]), M_ok_bind, ensure_neg (by simp [hl])]
+    rfl
+  · simp only [h0, if_false]
+    rw [ensure_neg (by simp [hl])]
+    rfl
 
 /-- engine: a frame write below the capture offset (already captured frames) is refused -/
 theorem C03_below_offset_refused (s : Eng) (offset : Nat) (data : ByteArray)
@@ -41,16 +48,22 @@ theorem C03_below_offset_refused (s : Eng) (offset : Nat) (data : ByteArray)
     (h0 : offset ≠ 0) (hlt : offset < s.w.offset) :
     writeWALAt s offset data = .error (s, .err) := by
   unfold writeWALAt
-  simp only [hw, Bool.not_true, Bool.false_eq_true, if_false, hd, hps, h0, bind, Except.bind, pure, Except.pure]
+  rw [ensure_pos (by simp [hw])]
+  simp only [M_ok_bind, hd, if_false]
+  rw [ensure_pos (by simpa using hps)]
+  simp only [M_ok_bind, h0, if_false]
   by_cases hl : (s.locks.state .write == .exclusive) = true
-  · simp [hl, hlt, fail]
-  · simp [hl, fail]
+  · rw [ensure_pos (by simp [hl]), M_ok_bind, ensure_neg (by simp; omega)]
+    rfl
+  · rw [ensure_neg (by simp [hl])]
+    rfl
 
 /-- engine: on a node without write authority WAL writes are refused with the read-only error -/
 theorem C03_write_readonly (s : Eng) (offset : Nat) (data : ByteArray) (hw : s.writeable = false) :
     writeWALAt s offset data = .error (s, .readonly) := by
   unfold writeWALAt
-  simp [hw, fail, bind, Except.bind]
+  rw [ensure_neg (by simp [hw])]
+  rfl
 
 /-- engine: if no complete committed transaction follows the capture offset, releasing the write
     lock captures nothing: the state is unchanged -/
@@ -58,7 +71,21 @@ theorem C03_no_transaction_no_change (s : Eng) (wal : ByteArray) (hwal : s.wal =
     (hnone : Sqlite.buildTxFrames wal s.pageSize s.w.offset s.w.bo s.w.salt1 s.w.salt2 s.w.chk1 s.w.chk2 = .ok none) :
     commitWALBody s = .ok s := by
   unfold commitWALBody
-  simp [hwal, hnone, liftCk, bind, Except.bind, pure, Except.pure]
+  simp only [hwal, hnone, liftCk, M_pure_bind, M_ok_bind]
+  rfl
+
+/-- engine: releasing the write lock either captures nothing (state unchanged) or publishes exactly
+    one file extending the position by one; database file and WAL bytes are not modified by the
+    capture -/
+theorem C03_release_captures_at_most_one (s s' : Eng) (h : commitWALBody s = .ok s') :
+    s' = s ∨ ∃ f : LTXFile, s'.ltx = addLTX s.ltx f ∧ f.minTxid = s.posTxid + 1 ∧ f.maxTxid = s.posTxid + 1 ∧
+      f.pre = s.posChk ∧ f.post = s'.posChk ∧ s'.posTxid = s.posTxid + 1 ∧ s'.pageN = f.commit ∧
+      s'.dbFile = s.dbFile ∧ s'.wal = s.wal :=
+  commitWAL_shape s s' h
+
+/-- engine: a commit step that begins after write authority was lost publishes nothing -/
+theorem C03_lost_authority (s s' : Eng) (hw : s.writeable = false) (h : commitWALBody s = .ok s') : s' = s :=
+  commitWAL_lost_authority s s' hw h
 
 /-! ### non-vacuity: repeated page within a transaction (last frame wins), shrink -/
 example : apply [10, 20, 30, 40] (capture [11, 21] [1, 2, 1] 7 7 0 0) = [11, 21] := by decide
